@@ -314,7 +314,28 @@ fn hex_decode(s: &str) -> Option<Vec<u8>> {
 
 fn lib_encode(f: F, o: Opts, img: &Img) -> Result<Vec<u8>, String> {
     let opts = o.enc().ok_or("opts")?;
-    let view = ImageView::new(&img.data, Size::new(img.w as u32, img.h as u32), img.prec.color()).ok_or("view")?;
+    // the block content must not depend on how the rows are stored: a third of the images (chosen by their own
+    // content, so the case line stays the same) is handed over as a strided view with a pitch that is not a
+    // multiple of the pixel size, another third at an odd buffer offset
+    let row = img.w * img.prec.bpp();
+    let pick = img.data.iter().fold(img.w as u64 * 31 + img.h as u64, |a, b| a.wrapping_mul(131).wrapping_add(*b as u64)) % 3;
+    let store: Vec<u8>;
+    let view = if pick == 1 && img.w > 0 && img.h > 0 {
+        let pitch = row + 3;
+        let mut buf = vec![0xC3u8; pitch * img.h];
+        for y in 0..img.h {
+            buf[y * pitch..y * pitch + row].copy_from_slice(&img.data[y * row..(y + 1) * row]);
+        }
+        store = buf;
+        ImageView::new_with(&store, pitch, Size::new(img.w as u32, img.h as u32), img.prec.color()).ok_or("view")?
+    } else if pick == 2 {
+        let mut buf = vec![0x3Cu8; img.data.len() + 1];
+        buf[1..].copy_from_slice(&img.data);
+        store = buf;
+        ImageView::new(&store[1..], Size::new(img.w as u32, img.h as u32), img.prec.color()).ok_or("view")?
+    } else {
+        ImageView::new(&img.data, Size::new(img.w as u32, img.h as u32), img.prec.color()).ok_or("view")?
+    };
     let mut out = Vec::new();
     encode(&mut out, view, f.format(), None, &opts).map_err(|e| format!("{e:?}"))?;
     let want = img.blocks_w() * img.blocks_h() * f.bpb();
